@@ -80,6 +80,10 @@ def run(prog: Program, _no_c10: bool = False) -> Results:
         if isinstance(d, ast.Assign) and isinstance(d.value, ast.Call) and callee(d.value) == "_resolve_identifier" \
                 and isinstance(d.targets[0], ast.Tuple) and len(d.targets[0].elts) == 2 and isinstance(d.targets[0].elts[1], ast.Name):
             bind_names.add(d.targets[0].elts[1].id)
+        # `binding = _resolve_identifier(self, scopes)[1]` names the same element as the tuple unpacking
+        if isinstance(d, ast.Assign) and isinstance(d.value, ast.Subscript) and isinstance(d.value.value, ast.Call) and callee(d.value.value) == "_resolve_identifier" \
+                and isinstance(d.value.slice, ast.Constant) and d.value.slice.value == 1 and isinstance(d.targets[0], ast.Name):
+            bind_names.add(d.targets[0].id)
     stores = [n for n in walk_no_nested(setter.node) if isinstance(n, ast.Assign) and isinstance(n.targets[0], ast.Attribute)]
     r1.instances += 1
     ok = len(stores) == 1 and stores[0].targets[0].attr == "value" and isinstance(stores[0].targets[0].value, ast.Name) \
